@@ -204,7 +204,7 @@ def run_kani(crate, harnesses, timeout_s, jobs=16, extra=None, dialect=False, co
     return r, results, wall, " ".join(cmd)
 
 
-def classify(results, wanted, stdout, prop):
+def classify(results, wanted, stdout, prop, also_owns=()):
     """Returns (per_harness dict, refuted list, undecided list)."""
     per = {}
     refuted = []
@@ -254,7 +254,7 @@ def classify(results, wanted, stdout, prop):
                 continue
             info["checks"] += 1
             is_named = bool(NAMED.match(clean))
-            if is_named and prop not in ("DEV", "DIA", "CON") and not clean.startswith(prop + "_") and not clean.startswith("U_"):
+            if is_named and prop not in ("DEV", "DIA", "CON") and not clean.startswith(prop + "_") and not clean.startswith("U_") and not any(re.match(a, clean) for a in also_owns):
                 # obligation owned by another property (shared harness): not counted here
                 if status == "Failure":
                     refuted.append({"harness": short, "obligation": clean.split(":")[0], "description": clean, "location": where})
@@ -482,19 +482,39 @@ def main():
     kani_cmd = ""
     stdout_tail = ""
     kani_wall = 0.0
+    replay_ctx = []
     try:
-        try:
-            crate, stats = extract(scratch, gen_dialect=cfg.get("dialect", False), contracts=cfg.get("contracts", False))
-        except Undecided as e:
-            undecided.append(("*", str(e)))
-            crate = None
-        if crate and wanted:
-            r, results, kani_wall, kani_cmd = run_kani(crate, wanted, timeout_s, jobs=args.jobs, dialect=cfg.get("dialect", False), contracts=cfg.get("contracts", False))
+        groups = []
+        if cfg.get("dialect", False):
+            dia = [h for h in wanted if h.startswith("dia_")]
+            plain = [h for h in wanted if not h.startswith("dia_")]
+            if plain:
+                groups.append((plain, False))
+            if dia:
+                groups.append((dia, True))
+        else:
+            groups.append((wanted, False))
+        crate = None
+        for gi, (ghar, gdia) in enumerate(groups):
+            gscratch = os.path.join(scratch, "g%d" % gi)
+            os.makedirs(gscratch)
+            try:
+                crate, gstats = extract(gscratch, gen_dialect=gdia, contracts=cfg.get("contracts", False))
+                stats = gstats if not stats else {**stats, **{k: v for k, v in gstats.items() if k not in stats or k == "T4"}}
+            except Undecided as e:
+                undecided.append(("*", str(e)))
+                crate = None
+                continue
+            if not ghar:
+                continue
+            r, results, gwall, gcmd = run_kani(crate, ghar, timeout_s, jobs=args.jobs, dialect=gdia, contracts=cfg.get("contracts", False))
+            kani_wall += gwall
+            kani_cmd = (kani_cmd + " ;; " if kani_cmd else "") + gcmd
             stdout_tail = (r.stdout or "")[-8000:]
             logdir = os.environ.get("VERIF_EVIDENCE_DIR", os.path.join(VERIF, "logs"))
             os.makedirs(logdir, exist_ok=True)
-            with open(os.path.join(logdir, "%s.%s.log" % (prop, tier)), "w") as lf:
-                lf.write(kani_cmd + "\n==== stdout\n" + (r.stdout or "") + "\n==== stderr\n" + (r.stderr or ""))
+            with open(os.path.join(logdir, "%s.%s.g%d.log" % (prop, tier, gi)), "w") as lf:
+                lf.write(gcmd + "\n==== stdout\n" + (r.stdout or "") + "\n==== stderr\n" + (r.stderr or ""))
             if results is None:
                 both = re.sub(r"\x1b\[[0-9;]*m", "", (r.stdout or "") + "\n" + (r.stderr or ""))
                 blocks = re.findall(r"(?ms)^error(?:\[E\d+\])?:.*?(?=^\s*$)", both)
@@ -502,11 +522,13 @@ def main():
                     log(b.rstrip()[:1500])
                 errs = [l for l in both.splitlines() if l.startswith("error")]
                 undecided.append(("*", "kani produced no results; first errors: %s" % errs[:5]))
-                log((r.stderr or "")[-4000:])
             else:
-                per, refuted, und = classify(results, wanted, r.stdout, prop)
+                gper, gref, und = classify(results, ghar, r.stdout, prop, cfg.get("also_owns", []))
+                per.update(gper)
+                refuted += gref
                 undecided += und
-        elif crate and not wanted:
+                replay_ctx.append((crate, gdia, set(ghar)))
+        if not wanted:
             undecided.append(("*", "no harness registered for %s/%s" % (prop, tier)))
         if not args.no_lemmas:
             for lf in cfg.get("lemmas", []):
@@ -521,7 +543,7 @@ def main():
         own = []
         for it in refuted:
             tag = it["obligation"][:3]
-            if prop in ("DEV", "DIA", "CON") or it["obligation"].startswith("kani_safety") or tag == prop or it["obligation"].startswith("U_"):
+            if prop in ("DEV", "DIA", "CON") or it["obligation"].startswith("kani_safety") or tag == prop or it["obligation"].startswith("U_") or any(re.match(a, it["obligation"]) for a in cfg.get("also_owns", [])):
                 own.append(it)
             else:
                 # an obligation owned by another property failed in a shared harness: the paths behind
@@ -552,7 +574,13 @@ def main():
                 json.dump({"property": prop, "refuted": new_viol, "kani_cmd": kani_cmd, "verifier_output_tail": stdout_tail[-6000:]}, open(replay_path, "w"), indent=1)
                 found = False
             else:
-                replay_path, found = write_replay(prop, new_viol, crate, kani_cmd, stdout_tail, cfg.get("dialect", False))
+                rcrate, rdia = crate, cfg.get("dialect", False)
+                for c_, d_, hs_ in replay_ctx:
+                    if new_viol[0]["harness"] in hs_:
+                        rcrate, rdia = c_, d_
+                        new_viol = [v for v in new_viol if v["harness"] in hs_] + [v for v in new_viol if v["harness"] not in hs_]
+                        break
+                replay_path, found = write_replay(prop, new_viol, rcrate, kani_cmd, stdout_tail, rdia)
             for it in new_viol[:20]:
                 log("REFUTED %s :: %s  (%s)" % (it["harness"], it["description"], it["location"]))
             print("VIOLATION property=%s replay=%s obligation=%s%s" % (prop, replay_path, new_viol[0]["obligation"], "" if found else " no-failing-input-found"))
